@@ -35,7 +35,7 @@ inductive Err where
   deriving DecidableEq, Repr
 
 /-- `YoutubeVideo(id, playlist)`, `YoutubeUser(id=None, name)` (the parser never sets a user
-id), `YoutubeChannel(id, name)`, `YoutubeShort(id)` — youtube.py:212-215 -/
+id), `YoutubeChannel(id, name)`, `YoutubeShort(id)` — youtube.py:216-219 -/
 inductive Record where
   | video (id : Str) (playlist : Option Str)
   | user (name : Str)
@@ -54,13 +54,15 @@ def nextVPattern : String := "next=%2Fwatch%3Fv%3D([^%&#]+)"
 def nestedNextVPattern : String := "next%3D%252Fwatch%253Fv%253D([^%&#]+)"
 def fragmentVPattern : String := "^(?:%2F|/)watch(?:%3F|\\?)v(?:%3D|=)([a-zA-Z0-9_-]{11})"
 
-/-- `YOUTUBE_VIDEO_URL_TEMPLATE` etc. without their final `%s` — youtube.py:185-194 -/
+/-- `YOUTUBE_VIDEO_URL_TEMPLATE` etc. without their final `%s` — youtube.py:189-198 -/
 def videoPrefix : Str := "https://www.youtube.com/watch?v=".toList
 def userPrefix : Str := "https://www.youtube.com/user/".toList
 def channelIdPrefix : Str := "https://www.youtube.com/channel/".toList
 def channelNamePrefix : Str := "https://www.youtube.com/".toList
 def shortPrefix : Str := "https://www.youtube.com/shorts/".toList
-/-- `"&list=%s"` of `normalize_youtube_url` — youtube.py:456 -/
+/-- `"&list=%s"` of `normalize_youtube_url` — youtube.py:464 (an inline literal, not a module-level
+constant: it is regenerated as the answer of `normalize_youtube_url` on a probe url, obligation
+`youtube_list_infix_unchanged`) -/
 def listInfix : Str := "&list=".toList
 
 /-- `YOUTUBE_CHANNEL_NAME_BLACKLIST` (regenerated) -/
@@ -84,10 +86,10 @@ followed by one final `"\n"` (Python's `$`) -/
 def idClassN (n : Nat) (s : Str) : Bool :=
   (s.take n).length = n && (s.take n).all isIdChar && (s.drop n = [] || s.drop n = ['\n'])
 
-/-- `is_youtube_video_id(value)` — youtube.py:242-243 -/
+/-- `is_youtube_video_id(value)` — youtube.py:246-247 -/
 def is_youtube_video_id (value : Str) : Bool := idClassN 11 value
 
-/-- `is_youtube_channel_id(value)` — youtube.py:246-247 -/
+/-- `is_youtube_channel_id(value)` — youtube.py:250-251 -/
 def is_youtube_channel_id (value : Str) : Bool :=
   startsWith value ['U', 'C'] && idClassN 22 (value.drop 2)
 
@@ -144,7 +146,7 @@ def fragmentV (f : Str) : Option Str :=
 /-! ## `is_youtube_url` -/
 
 /-- `YOUTUBE_DOMAINS_TRIE`: `HostnameTrieSet()` then `add(domain)` for every domain —
-youtube.py:219-222 -/
+youtube.py:223-226 -/
 def youtubeTrie (puny : Str → Str) : T := domains.foldl (add isSpecialHost puny) new
 
 /-- `SplitResult.hostname` (`None` ↦ `none`) -/
@@ -152,11 +154,11 @@ def hostnameOf (r : SplitResult) : Option Str :=
   if pyHostname r.netloc = [] then none else some (pyHostname r.netloc)
 
 /-- `YOUTUBE_DOMAINS_TRIE.match(parsed)` for an already split url (`safe_urlsplit` returns a
-`SplitResult` unchanged) — hostname_trie_set.py:44-52 -/
+`SplitResult` unchanged) — hostname_trie_set.py:41-49 -/
 def isYoutubeParsed (puny : Str → Str) (t : T) (r : SplitResult) : Bool :=
   matchHost isSpecialHost puny t (hostnameOf r)
 
-/-- `is_youtube_url(url)` for a string — youtube.py:225-239 (`ValueError` ↦ `False`) -/
+/-- `is_youtube_url(url)` for a string — youtube.py:229-243 (`ValueError` ↦ `False`) -/
 def is_youtube_url (puny : Str → Str) (t : T) (url : Str) : Bool :=
   match safe_urlsplit url with
   | none => false
@@ -175,7 +177,7 @@ def truncate (fix : Bool) (v : Str) : Str := if fix then v.take 11 else v
 def videoOf (fix : Bool) (v : Str) (playlist : Option Str) : Option Record :=
   if is_youtube_video_id (truncate fix v) then some (.video (truncate fix v) playlist) else none
 
-/-- the `youtu.be` branch — youtube.py:295-313 -/
+/-- the `youtu.be` branch — youtube.py:303-321 -/
 def routeShortHost (fix : Bool) (path : Str) (playlist : Option Str) : Except Err (Option Record) :=
   if path.count '/' > 0 then
     if (pathsplit path).length < 1 then .ok none
@@ -185,7 +187,7 @@ def routeShortHost (fix : Bool) (path : Str) (playlist : Option Str) : Except Er
       | some v => .ok (videoOf fix v playlist)
   else .ok none
 
-/-- `/v/`, `/video/`, `/embed/` — youtube.py:343-356 (`pathsplit(path)[-1]`) -/
+/-- `/v/`, `/video/`, `/embed/` — youtube.py:351-364 (`pathsplit(path)[-1]`) -/
 def routeVideoFile (fix : Bool) (path : Str) (playlist : Option Str) : Except Err (Option Record) :=
   match (pathsplit path).getLast? with
   | none => .error .indexError
@@ -203,7 +205,7 @@ def second (path : Str) : Except Err (Option Str) :=
 (716cf1e) -/
 def cutAmp (seg : Str) : Str := seg.takeWhile (· ≠ '&')
 
-/-- `/user/` — youtube.py:361-376: `user = splitted_path[1].split("&", 1)[0].strip()` (d47b8e8,
+/-- `/user/` — youtube.py:367-380: `user = splitted_path[1].split("&", 1)[0].strip()` (d47b8e8,
 716cf1e) -/
 def routeUser (path : Str) : Except Err (Option Record) :=
   match second path with
@@ -212,7 +214,7 @@ def routeUser (path : Str) : Except Err (Option Record) :=
   | .ok (some seg) =>
     .ok (if strip (cutAmp seg) = [] then none else some (.user (strip (cutAmp seg))))
 
-/-- `/c/` — youtube.py:373-388 -/
+/-- `/c/` — youtube.py:383-398 -/
 def routeC (path : Str) : Except Err (Option Record) :=
   match second path with
   | .error e => .error e
@@ -221,7 +223,7 @@ def routeC (path : Str) : Except Err (Option Record) :=
     let name := cutAmp (lstripChars seg ['@'])
     .ok (if name = [] || blacklist.contains name then none else some (.channel none (some name)))
 
-/-- `/channel/` — youtube.py:390-401 -/
+/-- `/channel/` — youtube.py:400-412 -/
 def routeChannel (path : Str) : Except Err (Option Record) :=
   match second path with
   | .error e => .error e
@@ -230,7 +232,7 @@ def routeChannel (path : Str) : Except Err (Option Record) :=
     .ok (if strip (cutAmp seg) = [] then none
       else some (.channel (some (strip (cutAmp seg))) none))
 
-/-- `/shorts/` — youtube.py:403-417 -/
+/-- `/shorts/` — youtube.py:414-428 -/
 def routeShorts (fix : Bool) (path : Str) : Except Err (Option Record) :=
   match second path with
   | .error e => .error e
@@ -238,7 +240,7 @@ def routeShorts (fix : Bool) (path : Str) : Except Err (Option Record) :=
   | .ok (some v) =>
     .ok (if is_youtube_video_id (truncate fix v) then some (.short (truncate fix v)) else none)
 
-/-- the final `else` — youtube.py:424-434 (as repaired by 55c9bda: the leading `@`s are removed
+/-- the final `else` — youtube.py:430-440 (as repaired by 55c9bda: the leading `@`s are removed
 *before* the blacklist is consulted; 716cf1e: the name stops at a `&`) -/
 def routeName (path : Str) : Option Record :=
   let path := rstripChars path ['/']
@@ -248,7 +250,7 @@ def routeName (path : Str) : Option Record :=
     else some (.channel none (some name))
   else none
 
-/-- the `if / elif` chain on the path — youtube.py:327-432 -/
+/-- the `if / elif` chain on the path — youtube.py:336-440 -/
 def routePath (fix : Bool) (path query : Str) (playlist : Option Str) : Except Err (Option Record) :=
   if rstripChars path ['/'] = "/watch".toList then
     match queryV query with
@@ -262,7 +264,7 @@ def routePath (fix : Bool) (path query : Str) (playlist : Option Str) : Except E
   else if startsWith path "/shorts/".toList then routeShorts fix path
   else .ok (routeName path)
 
-/-- everything after `is_youtube_url(parsed)` — youtube.py:292-432 -/
+/-- everything after `is_youtube_url(parsed)` — youtube.py:300-440 -/
 def parseSplit (fix : Bool) (parsed : SplitResult) (playlist : Option Str) :
     Except Err (Option Record) :=
   if (hostnameOf parsed).isSome && endsWith (pyHostname parsed.netloc) "youtu.be".toList then
@@ -272,7 +274,11 @@ def parseSplit (fix : Bool) (parsed : SplitResult) (playlist : Option Str) :
     | some v => .ok (if is_youtube_video_id v then some (.video v playlist) else none)
     | none => routePath fix parsed.path parsed.query playlist
 
-/-- `parse_youtube_url(url, fix_common_mistakes)` — youtube.py:250-432 -/
+/-- `parse_youtube_url(url, fix_common_mistakes)` — youtube.py:254-440.  Its first step is
+`infer_redirection` (`Model/Redirect.lean`, property C15): `infer` is defined by well-founded
+recursion on the length of the url, as the loop of ural/infer_redirection.py since /repo 0c9bfa3
+(before that fix the Python recursed one frame per hop and a url with ~1000 nested hops raised
+`RecursionError` out of `parse_youtube_url`: FX-C15-0c9bfa3) -/
 def parse_youtube_url (puny : Str → Str) (t : T) (url : Str) (fix : Bool := true) :
     Except Err (Option Record) :=
   let url := stripUnsafe (infer url)
@@ -286,7 +292,7 @@ def parse_youtube_url (puny : Str → Str) (t : T) (url : Str) (fix : Bool := tr
       if !isYoutubeParsed puny t parsed then .ok none
       else parseSplit fix parsed playlist
 
-/-- `extract_video_id_from_youtube_url(url)` — youtube.py:435-441 -/
+/-- `extract_video_id_from_youtube_url(url)` — youtube.py:443-449 -/
 def extract_video_id_from_youtube_url (puny : Str → Str) (t : T) (url : Str) :
     Except Err (Option Str) :=
   match parse_youtube_url puny t url with
@@ -298,7 +304,7 @@ def extract_video_id_from_youtube_url (puny : Str → Str) (t : T) (url : Str) :
 /-- `"%s" % x` for an optional string (`None` prints as `None`) -/
 def pyFormatOpt (o : Option Str) : Str := o.getD "None".toList
 
-/-- the canonical URL `normalize_youtube_url` builds for a record — youtube.py:452-470 -/
+/-- the canonical URL `normalize_youtube_url` builds for a record — youtube.py:460-478 -/
 def recordUrl : Record → Str
   | .video id playlist =>
     videoPrefix ++ id ++
@@ -310,12 +316,38 @@ def recordUrl : Record → Str
   | .channel none name => channelNamePrefix ++ pyFormatOpt name
   | .short id => shortPrefix ++ id
 
-/-- `normalize_youtube_url(url)` — youtube.py:444-472.  The final `raise TypeError` is
-unreachable by construction of `Record` (all four record types are handled). -/
+/-- `isinstance(parsed, YoutubeVideo)` -/
+def Record.isVideo : Record → Bool
+  | .video _ _ => true
+  | _ => false
+/-- `isinstance(parsed, YoutubeUser)` -/
+def Record.isUser : Record → Bool
+  | .user _ => true
+  | _ => false
+/-- `isinstance(parsed, YoutubeChannel)` -/
+def Record.isChannel : Record → Bool
+  | .channel _ _ => true
+  | _ => false
+/-- `isinstance(parsed, YoutubeShort)` -/
+def Record.isShort : Record → Bool
+  | .short _ => true
+  | _ => false
+
+/-- `normalize_youtube_url(url)` — youtube.py:452-480: `parsed is None` returns the url, then the
+chain of four `isinstance` tests (each building the url of that record kind: `recordUrl`), then
+the final `raise TypeError("normalize_youtube_url: impossible path reached")` — the last branch
+below.  That it is never taken is a theorem (`Props/C19/Youtube.lean`:
+`normalize_raise_unreachable`, every record is of one of the four kinds), not a convention of the
+model. -/
 def normalize_youtube_url (puny : Str → Str) (t : T) (url : Str) : Except Err Str :=
   match parse_youtube_url puny t url with
   | .error e => .error e
   | .ok none => .ok url
-  | .ok (some r) => .ok (recordUrl r)
+  | .ok (some parsed) =>
+    if parsed.isVideo then .ok (recordUrl parsed)
+    else if parsed.isUser then .ok (recordUrl parsed)
+    else if parsed.isChannel then .ok (recordUrl parsed)
+    else if parsed.isShort then .ok (recordUrl parsed)
+    else .error .typeError
 
 end Ural.Youtube
